@@ -481,4 +481,156 @@ theorem restart_spec {chain : Nat → Block} (hc : Chain chain) (c : CI) (hi : I
     · rintro ⟨a, b⟩; exact ⟨b, fun thr e => e ▸ a⟩
     · rintro ⟨a, b⟩; exact ⟨b _ rfl, a⟩
 
+
+/-! ## the startup iterator is sorted: everything below the threshold is deleted -/
+
+theorem pairwise_insertSorted (a : Nat) (l : List Nat) (h : l.Pairwise (· ≤ ·)) :
+    (insertSorted a l).Pairwise (· ≤ ·) := by
+  induction l with
+  | nil => simp [insertSorted]
+  | cons b r ih =>
+    have hb := List.pairwise_cons.mp h
+    unfold insertSorted
+    by_cases hab : a ≤ b
+    · simp only [hab, if_true]
+      refine List.pairwise_cons.mpr ⟨?_, h⟩
+      intro x hx
+      simp only [List.mem_cons] at hx
+      rcases hx with hx | hx
+      · omega
+      · have := hb.1 x hx; omega
+    · simp only [hab, if_false]
+      refine List.pairwise_cons.mpr ⟨?_, ih hb.2⟩
+      intro x hx
+      rw [mem_insertSorted] at hx
+      rcases hx with hx | hx
+      · omega
+      · exact hb.1 x hx
+
+theorem pairwise_sortNat (l : List Nat) : (sortNat l).Pairwise (· ≤ ·) := by
+  induction l with
+  | nil => simp [sortNat]
+  | cons a r ih => exact pairwise_insertSorted a _ ih
+
+theorem mem_takeWhile_of_sorted {l : List Nat} (hl : l.Pairwise (· ≤ ·)) {x thr : Nat}
+    (hx : x ∈ l) (hlt : x < thr) : x ∈ l.takeWhile (· < thr) := by
+  induction l with
+  | nil => simp at hx
+  | cons a r ih =>
+    have ha := List.pairwise_cons.mp hl
+    simp only [List.mem_cons] at hx
+    have hathr : a < thr := by
+      rcases hx with hx | hx
+      · omega
+      · have := ha.1 x hx; omega
+    rw [List.takeWhile_cons]
+    simp only [hathr, decide_true, if_true, List.mem_cons]
+    rcases hx with hx | hx
+    · exact Or.inl hx
+    · exact Or.inr (ih ha.2 hx)
+
+theorem mem_victims_iff {thr : Nat} {hs : List Nat} (hsorted : hs.Pairwise (· ≤ ·)) {x : Nat} :
+    x ∈ victims thr hs ↔ x < thr ∧ x ≠ 0 ∧ x ∈ hs := by
+  constructor
+  · exact mem_victims
+  · rintro ⟨a, b, c⟩
+    simp only [victims, List.mem_filter]
+    exact ⟨mem_takeWhile_of_sorted hsorted c a, by simpa using b⟩
+
+/-- exact effect of a restart on the set of stored heights -/
+theorem restart_stored {chain : Nat → Block} (hc : Chain chain) (c : CI) (hi : Inv chain c.db) (w : Nat)
+    (x : Nat) :
+    Stored (new w c.db).1.db x ↔
+      Stored c.db x ∧ ∀ thr, cleanupThr w c.db.last = some thr → ¬ (x < thr ∧ x ≠ 0) := by
+  rw [(restart_spec hc c hi w).2.2.2.2 x]
+  constructor
+  · rintro ⟨a, b⟩
+    refine ⟨a, fun thr ht hx => b thr ht ?_⟩
+    rw [mem_victims_iff (pairwise_sortNat _)]
+    refine ⟨hx.1, hx.2, ?_⟩
+    rw [mem_sortNat, mem_akeys_iff]; exact a
+  · rintro ⟨a, b⟩
+    refine ⟨a, fun thr ht hv => b thr ht ?_⟩
+    have := mem_victims hv
+    exact ⟨this.1, this.2.1⟩
+
+/-! ## keys stay duplicate free; counting -/
+
+def NodupKeys (db : DB) : Prop := (akeys db.hId).Nodup
+
+theorem nodup_applyOp (db : DB) (op : BOp) (h : NodupKeys db) : NodupKeys (applyOp db op) := by
+  cases op <;> simp only [applyOp, NodupKeys] at * <;> first
+    | exact h
+    | exact nodup_akeys_aput _ _ _ h
+    | exact nodup_akeys_adel _ _ h
+
+theorem nodup_applyBatch (db : DB) (ops : List BOp) (h : NodupKeys db) : NodupKeys (applyBatch db ops) := by
+  induction ops generalizing db with
+  | nil => exact h
+  | cons op r ih => exact ih _ (nodup_applyOp db op h)
+
+theorem nodup_step (chain : Nat → Block) (c : CI) (op : HOp) (h : NodupKeys c.db) :
+    NodupKeys (stepH chain c op).1.db := by
+  cases op with
+  | accept x =>
+    simp only [stepH, updateLastAccepted]
+    split
+    · exact nodup_applyBatch _ _ h
+    · split
+      · simp only [if_true]; exact nodup_applyBatch _ _ h
+      · exact nodup_applyBatch _ _ h
+  | save x => exact nodup_applyBatch _ _ h
+  | restart w =>
+    simp only [stepH, new, cleanupOnStartup]
+    split
+    · exact h
+    · split
+      · exact h
+      · exact nodup_applyBatch _ _ h
+
+theorem length_filter_ne_of_nodup (l : List Nat) (v : Nat) (h : l.Nodup) :
+    l.length ≤ (l.filter (· ≠ v)).length + 1 := by
+  induction l with
+  | nil => simp
+  | cons a r ih =>
+    have ha := List.nodup_cons.mp h
+    have ihr := ih ha.2
+    rw [List.filter_cons]
+    by_cases e : a = v
+    · have hd : decide (a ≠ v) = false := by simp [e]
+      rw [hd]
+      simp only [Bool.false_eq_true, if_false, List.length_cons]
+      have : r.filter (fun x => decide (x ≠ v)) = r := by
+        apply List.filter_eq_self.mpr
+        intro x hx
+        have : x ≠ v := fun e' => ha.1 (e ▸ e' ▸ hx)
+        exact decide_eq_true this
+      rw [this]
+      omega
+    · have hd : decide (a ≠ v) = true := decide_eq_true e
+      rw [hd]
+      simp only [if_true, List.length_cons]
+      omega
+
+/-- pigeonhole: a duplicate-free list of naturals inside `[lo, lo+n)` has at most `n` elements -/
+theorem length_le_of_nodup_range (n : Nat) : ∀ (lo : Nat) (l : List Nat), l.Nodup →
+    (∀ x ∈ l, lo ≤ x ∧ x < lo + n) → l.length ≤ n := by
+  induction n with
+  | zero =>
+    intro lo l _ hb
+    cases l with
+    | nil => simp
+    | cons a r => have := hb a List.mem_cons_self; omega
+  | succ n ih =>
+    intro lo l hn hb
+    have h1 := length_filter_ne_of_nodup l (lo + n) hn
+    have h2 : (l.filter (· ≠ lo + n)).length ≤ n := by
+      apply ih lo _ (hn.sublist List.filter_sublist)
+      intro x hx
+      simp only [List.mem_filter, ne_eq, decide_not, Bool.not_eq_eq_eq_not, Bool.not_true,
+        decide_eq_false_iff_not] at hx
+      have := hb x hx.1
+      omega
+    omega
+
 end HyperModel.ChainIndexProofs
